@@ -393,6 +393,7 @@ impl Check {
         let workers = if cases < WORKERS * 4 { 1 } else { WORKERS };
         let per = cases / workers;
         let stop = AtomicBool::new(false);
+        let auto_samples = std::sync::atomic::AtomicU32::new(0);
         let found: Mutex<Vec<(Value, Failure)>> = Mutex::new(vec![]);
         let this = &*self;
         std::thread::scope(|scope| {
@@ -400,6 +401,7 @@ impl Check {
                 let mk = &mk;
                 let f = &f;
                 let stop = &stop;
+                let auto_samples = &auto_samples;
                 let found = &found;
                 let n = if w == 0 { cases - per * (workers - 1) } else { per };
                 std::thread::Builder::new()
@@ -431,6 +433,22 @@ impl Check {
                                 Err(p) => Err(panic_failure(p)),
                             };
                             if !failed.get() {
+                                // make sure the evidence shows real cases even when the
+                                // property body does not render any itself
+                                if obs.sample.is_none()
+                                    && obs.nontrivial.is_some()
+                                    && auto_samples.load(Ordering::Relaxed) < 3
+                                {
+                                    auto_samples.fetch_add(1, Ordering::Relaxed);
+                                    let mut txt = serde_json::to_string(&v).unwrap_or_default();
+                                    if txt.len() > 600 {
+                                        txt.truncate(600);
+                                        txt.push_str("...");
+                                        obs.sample = Some(Value::String(txt));
+                                    } else {
+                                        obs.sample = serde_json::from_str(&txt).ok();
+                                    }
+                                }
                                 this.absorb(sub, obs);
                             }
                             match r {
